@@ -389,7 +389,9 @@ class Program:
         self.units = [f.get("unit") for f in facts]
         for u in facts:
             for fr in u["functions"]:
-                k = (fr["key"], fr["file"]) if fr.get("static") else (fr["key"], None)
+                # same key in different files = different programs' definitions (e.g. EXPRESSinit_init);
+                # the same (key, file) seen from several units is one header-defined function
+                k = (fr["key"], fr["file"])
                 if k in self.functions:
                     continue
                 f = Function(fr, u)
